@@ -36,15 +36,31 @@ type tagsCase struct {
 func build(ps []pair, spare int) b6.Tags {
 	t := make(b6.Tags, 0, len(ps)+spare)
 	for _, p := range ps {
-		t = append(t, b6.Tag{Key: p[0], Value: b6.NewStringExpression(p[1])})
+		t = append(t, b6.Tag{Key: p[0], Value: val(p[1])})
 	}
 	return t
+}
+
+// val: the model value "nil" stands for the zero b6.Expression (a placeholder tag such as Tag{Key: k}); a tag with
+// such a value is still an entry of the list under its key.
+func val(s string) b6.Expression {
+	if s == "nil" {
+		return b6.Expression{}
+	}
+	return b6.NewStringExpression(s)
+}
+
+func show(v b6.Expression) string {
+	if v.AnyExpression == nil {
+		return "nil"
+	}
+	return v.String()
 }
 
 func observe(t b6.Tags) []pair {
 	out := make([]pair, 0, len(t))
 	for _, tag := range t {
-		out = append(out, pair{tag.Key, tag.Value.String()})
+		out = append(out, pair{tag.Key, show(tag.Value)})
 	}
 	return out
 }
@@ -75,14 +91,14 @@ func runCase(data json.RawMessage) vh.Verdict {
 		p := vh.Catch(func() {
 			switch s.Ev.Op {
 			case "set":
-				modified, old := t.ModifyOrAddTag(b6.Tag{Key: s.Ev.K, Value: b6.NewStringExpression(s.Ev.V)})
+				modified, old := t.ModifyOrAddTag(b6.Tag{Key: s.Ev.K, Value: val(s.Ev.V)})
 				if modified != s.Ev.Modified {
 					resMismatch = fmt.Sprintf("ModifyOrAddTag returned modified=%v, spec %v", modified, s.Ev.Modified)
-				} else if modified && old.String() != s.Ev.Old {
-					resMismatch = fmt.Sprintf("ModifyOrAddTag returned old=%q, spec %q", old.String(), s.Ev.Old)
+				} else if modified && show(old) != s.Ev.Old {
+					resMismatch = fmt.Sprintf("ModifyOrAddTag returned old=%q, spec %q", show(old), s.Ev.Old)
 				}
 			case "add":
-				t.AddTag(b6.Tag{Key: s.Ev.K, Value: b6.NewStringExpression(s.Ev.V)})
+				t.AddTag(b6.Tag{Key: s.Ev.K, Value: val(s.Ev.V)})
 			case "remove":
 				t.RemoveTag(s.Ev.K)
 			case "removemany":
@@ -96,6 +112,11 @@ func runCase(data json.RawMessage) vh.Verdict {
 				if s.Ev.V == "-" {
 					if got.IsValid() {
 						resMismatch = fmt.Sprintf("Get(%q) = %v, spec: absent", s.Ev.K, got)
+					}
+				} else if s.Ev.V == "nil" {
+					// present with the zero value: Get returns the entry (Tag.IsValid() is false for it, by its definition)
+					if got.Key != s.Ev.K || got.Value.AnyExpression != nil {
+						resMismatch = fmt.Sprintf("Get(%q) = %v, spec: the entry with the zero value", s.Ev.K, got)
 					}
 				} else if !got.IsValid() || got.Key != s.Ev.K || got.Value.String() != s.Ev.V {
 					resMismatch = fmt.Sprintf("Get(%q) = %v, spec %q", s.Ev.K, got, s.Ev.V)
